@@ -626,3 +626,20 @@ V("R3-load-fieldwise", ["C18"], "gmm", "if new_self.shape != self.shape:", "if n
 V("R3-view-inplace", ["C01", "C02"], "gmm", "    responsibility = np.exp(log_weighted_likelihoods - log_likelihood[None, :])", "    log_likelihood = log_weighted_likelihoods[0] if len(log_weighted_likelihoods) == 1 else log_likelihood\n    log_weighted_likelihoods -= log_likelihood[None, :]\n    responsibility = np.exp(log_weighted_likelihoods)", "normalisation in place while the per-sample log-likelihood may be a view of the array being changed (single component)")
 V("R3-mahalanobis-expanded", ["C01"], "gmm", "        temp = np.sum((data - machine.means[i]) ** 2 / machine.variances[i], axis=-1)", "        temp = np.square(data) @ (1.0 / machine.variances[i]) - 2.0 * (data @ (machine.means[i] / machine.variances[i])) + np.sum(machine.means[i] ** 2 / machine.variances[i])", "Mahalanobis distance by the expanded form x^2/v - 2 x m/v + m^2/v (cancellation far from the origin)")
 V("R3-position-split", ["C16", "C09"], "factor_analysis", "            for y_i in unique_labels(y):\n                latent_x[y_i] = self._compute_latent_x_per_class(X_i=self._get_statistics_by_class_id(X, y, y_i),", "            labels_, counts_ = np.unique(np.asarray(y), return_counts=True)\n            bounds_ = np.concatenate([[0], np.cumsum(counts_)])\n            for y_i in unique_labels(y):\n                latent_x[y_i] = self._compute_latent_x_per_class(X_i=X[bounds_[y_i]:bounds_[y_i + 1]],", "sessions of a class taken as a run of positions from cumulative class counts (right only for labels sorted by class)")
+
+# ---- round 4: rules added from the survivors of the fourth generic mutation sweep -----------------------------------------
+V("F4-nacc-minus", ["C07", "C09"], "factor_analysis", "n_acc[y_i, :] += x_i.n", "n_acc[y_i, :] -= x_i.n", "per-class zeroth-order sums subtract a session")
+V("F4-facc-times", ["C07", "C09"], "factor_analysis", "f_acc[y_i, :, :] += x_i.sum_px", "f_acc[y_i, :, :] *= x_i.sum_px", "per-class first-order sums multiply instead of add")
+V("F4-mult-along-axis-div", ["C09"], "factor_analysis", "A * B_brc", "A / B_brc", "mult_along_axis divides")
+V("F4-client-D-div", ["C11"], "factor_analysis", "self.D * latent_z", "self.D / latent_z", "client offset D / z instead of D * z", count=2)
+V("F4-lwl-gnorm-minus-z", ["C01"], "gmm", "machine.g_norms[:, None] + z", "machine.g_norms[:, None] - z", "Mahalanobis term enters the log-density with a plus sign")
+V("F4-lwl-mean-plus", ["C01"], "gmm", "(data - machine.means[i])", "(data + machine.means[i])", "distance to minus the mean")
+V("F4-lwl-half-by-division", ["C01"], "gmm", "ll = -0.5 * (machine.g_norms[:, None] + z)", "ll = -(machine.g_norms[:, None] + z) / 2", "the one-half written as a division", kind="benign")
+V("F4-lwl-half-negdiv", ["C01"], "gmm", "ll = -0.5 * (machine.g_norms[:, None] + z)", "ll = (machine.g_norms[:, None] + z) / -2.0", "the minus one-half written as a division by -2", kind="benign")
+V("F4-lwl-distributed", ["C01"], "gmm", "ll = -0.5 * (machine.g_norms[:, None] + z)", "ll = -0.5 * machine.g_norms[:, None] - 0.5 * z", "the one-half distributed over both terms", kind="benign")
+V("F4-lwl-third", ["C01"], "gmm", "ll = -0.5 * (machine.g_norms[:, None] + z)", "ll = -(machine.g_norms[:, None] + z) / 3", "one third instead of one half")
+V("F4-prior-side-trainer", ["C05"], "gmm", "        if self.trainer == 'map':\n            self.means = copy", "        if self.trainer != 'map':\n            self.means = copy", "prior handed over to the ML machine, k-means run for the MAP machine")
+V("F4-prior-side-ml-else", ["C05"], "gmm", "        if self.trainer == 'map':\n            self.means = copy", "        if not self.trainer == 'ml':\n            self.means = copy", "same switch written as not-ML", kind="benign")
+V("F4-prior-side-ubm", ["C05"], "gmm", "if self.ubm is not None:\n            self.means", "if self.ubm is None:\n            self.means", "constructor hands the prior over when there is none")
+V("F4-latent-x-not-swapped", ["C07"], "factor_analysis", "        latent_x_i = np.swapaxes(latent_x_i, 0, 1)\n", "", "per-class session factors left as (sessions, r_U) instead of (r_U, sessions)")
+V("F4-latent-x-transposed", ["C07"], "factor_analysis", "        latent_x_i = np.swapaxes(latent_x_i, 0, 1)\n", "        latent_x_i = latent_x_i.T\n", "swapaxes written as .T", kind="benign")
